@@ -24,7 +24,9 @@ Attrs == <<
   [n |-> "healthcheck", k |-> "healthcheck", alts |-> {M2("test", Sq2(S("CMD"), S("true")), "interval", S("10s")), M1("test", S("curl -f localhost")), M1("retries", I(3))}],
   \* zdep: a service the harness adds to the main file of every case
   [n |-> "depends_on", k |-> "depends_on", alts |-> {Sq1(S("zdep")), M1("zdep", M1("condition", S("service_healthy"))), M1("zdep", M2("condition", S("service_started"), "required", B(FALSE)))}],
-  [n |-> "reset", k |-> "environment", alts |-> {Sq1(S("A=1")), Tagged(Null, "reset")}]
+  [n |-> "reset", k |-> "environment", alts |-> {Sq1(S("A=1")), Tagged(Null, "reset")}],
+  [n |-> "override", k |-> "environment", alts |-> {Sq2(S("A=1"), S("B=2")), Tagged(Sq1(S("A=9")), "override")}],
+  [n |-> "override-ports", k |-> "ports", alts |-> {Sq1(M3("target", I(80), "published", S("8080"), "protocol", S("tcp"))), Tagged(Sq1(M3("target", I(81), "published", S("9090"), "protocol", S("tcp"))), "override")}]
 >>
 Names == <<"web.api", "b", "c.v2">>     \* service names may contain dots (a path separator inside the library)
 Absent == [t |-> "absent"]
